@@ -9,7 +9,7 @@ LEVEL = "other"
 SELFTEST_PARTS = ("num",)
 WALL_BUDGET = {"quick": 1200, "thorough": 9000}
 ACTIONS = ["remote-write", "remote-delete", "local-create", "local-edit", "request-path", "request-id", "unrequest", "listdir", "remote-mkdir", "remote-create-b",
-           "unrequest-id", "remote-create-nested", "request-nested", "unrequest-b", "remote-write-b"]
+           "unrequest-id", "remote-create-nested", "request-nested", "unrequest-b", "remote-write-b", "unrequest-upload-fault"]
 QUICK_ACTIONS = 10        # the generic quick families draw from the first ten; the last three are exercised by focused families
 
 
@@ -176,7 +176,7 @@ def _factory(params, env=None, monitor=None):
                         lab.cs.smart_sync_path("/R/m/f", 1)
                         req_n = ever_n = True
                         hist.append("request-nested")
-                    elif a in ("unrequest", "unrequest-id"):
+                    elif a in ("unrequest", "unrequest-id", "unrequest-upload-fault"):
                         before_local = None
                         i = local_a()
                         if i:
@@ -186,6 +186,25 @@ def _factory(params, env=None, monitor=None):
                         rbefore = lab.user(lambda: r.info_path("/R/a"))
                         if a == "unrequest":
                             res = lab.cs.smart_unsync_path("/L/a", 0)
+                        elif a == "unrequest-upload-fault":
+                            # the upload of the pending local edit, which the un-request triggers, fails once with a temporary error
+                            import cloudsync.exceptions as cex
+                            armed = [True]
+                            saved_ = {}
+                            for nm in ("upload", "create"):
+                                saved_[nm] = getattr(r, nm)
+
+                                def faulty(*a_, _o=saved_[nm], **k_):
+                                    if armed[0] and not lab.user_mode:
+                                        armed[0] = False
+                                        raise cex.CloudTemporaryError("injected: upload failed")
+                                    return _o(*a_, **k_)
+                                setattr(r, nm, faulty)
+                            try:
+                                res = lab.cs.smart_unsync_path("/L/a", 0)
+                            finally:
+                                for nm, o_ in saved_.items():
+                                    setattr(r, nm, o_)
                         elif rbefore:
                             # the by-id call returns the (cleared) local path, i.e. None, either way: read the request set to know whether the call applied
                             ent_ = lab.cs.state.lookup_oid(1, rbefore.oid)
@@ -308,6 +327,9 @@ def jobs(tier):
         for pre in (["request-path", "unrequest"], ["request-id", "unrequest"]):
             out.append({"harness": "smart", "params": {"flavour": f, "auto": False, "nact": n, "slots": 1, "slotmode": "round", "prefix": pre},
                         "label": "%s/no-predicate/%d-actions/prefix=%s" % (f, n, "+".join(pre))})
+        # a requested file is edited locally and un-requested while the upload of that edit fails once
+        out.append({"harness": "smart", "params": {"flavour": f, "auto": False, "nact": 4, "slots": 1, "slotmode": "round", "prefix": ["request-path", "local-edit", "unrequest-upload-fault"], "prefix_gaps": ["Q"]},
+                    "label": "%s/no-predicate/4-actions/prefix=request+edit+unrequest-with-upload-fault" % f})
         # a predicate-matched file is downloaded, the application un-requests it, then it is edited remotely
         out.append({"harness": "smart", "params": {"flavour": f, "auto": True, "nact": 4, "slots": 1, "slotmode": "round", "prefix": ["remote-create-b", "unrequest-b"], "prefix_gaps": ["Q"]},
                     "label": "%s/auto-b/4-actions/prefix=remote-create-b+unrequest-b" % f})
